@@ -10,8 +10,23 @@ def impl(case):
     out = {}
     from paulie import PauliStringCollection
     routes = case.get("routes", ["parse"])
+    live = None
+    if case.get("history"):
+        # one collection object: queried, edited in place through the public interface, then asked every question of this case
+        h = case["history"]
+        live = cls._coll(h["gens"])
+        for name in h.get("warm", []):
+            try:
+                {"in": lambda: live.is_in(cls._coll(h["gens"][:1])), "space": lambda: live.get_space(),
+                 "sel": lambda: live.select_dependents(cls._coll(h["gens"][:1])), "eq": lambda: live.is_eq(cls._coll(h["gens"]))}[name]()
+            except Exception:  # noqa
+                pass
+        for st in h["steps"]:
+            cls.apply_step(live, st)
+        if [str(s) for s in live.get()] != g:
+            return {"skip": "the edited collection does not hold the expected strings (C10)"}
     def fresh():
-        return cls._coll(g)
+        return live if live is not None else cls._coll(g)
     def X():   # the query collection holds objects reached through different public routes
         return PauliStringCollection([cls.mk_string(s, routes[i % len(routes)]) for i, s in enumerate(x)]) if x else cls._coll(x)
     for name, f in (("sel", lambda: sorted(str(v) for v in fresh().select_dependents(X()))),
@@ -65,7 +80,7 @@ def main():
     ck = Check("C08")
     if ck.replay:
         rp = json.load(open(ck.replay)); ck.build()
-        r = ck.impl("c08", [{"gens": rp["gens"], "query": rp["query"], "space": rp["n"] <= 4}])[0]
+        r = ck.impl("c08", [{"gens": rp["gens"], "query": rp["query"], "space": rp["n"] <= 4, "history": rp.get("history"), "routes": rp.get("routes", ["parse"])}])[0]
         print("implementation:", r)
         print("model:", ck.oracle(["member %d %s %s" % (rp["n"], ",".join(rp["gens"]), ",".join(rp["query"]))]))
         return
@@ -81,14 +96,29 @@ def main():
         x = queries(ck.rng, n, g, c.split())
         cases.append({"n": n, "gens": g, "query": x, "space": n <= (3 if ck.quick else 4) and ck.rng.random() < 0.5,
                       "routes": [ck.rng.choice(cls_routes) for _ in range(3)]})
+    # in-place histories: the generators are reached by editing a collection object that has already answered queries
+    from harness import cls
+    hbase = G.collections(ck.rng, 150 if ck.quick else 1500, 2, 5)
+    hfinal = []
+    for kind, n, g0 in hbase:
+        steps, cur = cls.gen_steps(ck.rng, n, g0, 1, 3)
+        if cur:
+            hfinal.append((n, g0, steps, cur))
+    hclos = ck.oracle(["closure %d %s" % (n, " ".join(cur)) for n, _, _, cur in hfinal])
+    for (n, g0, steps, cur), c in zip(hfinal, hclos):
+        cases.append({"n": n, "gens": cur, "query": queries(ck.rng, n, cur, c.split()), "space": n <= 3 and ck.rng.random() < 0.5,
+                      "routes": [ck.rng.choice(cls_routes)],
+                      "history": {"gens": g0, "steps": steps, "warm": ck.rng.sample(["in", "space", "sel", "eq"], ck.rng.randint(1, 2)) if n <= 4 else ck.rng.sample(["in", "sel", "eq"], 1)}})
     # corpus: the recorded witness of the known finding (a member of the closure not recognised on a graph with 5 single legs)
     cases.append({"n": 6, "gens": ["ZIXYIZ", "XIIXXY", "IIZYXI", "IIYXZI", "YXIYYY", "ZIYYII"], "query": ["ZXYIXZ"], "space": False})
     res = ck.impl("c08", cases, per_case_s=120)
     ans = ck.oracle(["member %d %s %s" % (c["n"], ",".join(c["gens"]), ",".join(c["query"])) for c in cases])
     sp = ck.oracle(["space %d %s" % (c["n"], ",".join(c["gens"])) for c in cases])
     nt = set()
-    stats = {"space_compared": 0, "in_true": 0, "in_false": 0, "eq_true": 0}
+    stats = {"space_compared": 0, "in_true": 0, "in_false": 0, "eq_true": 0, "history_cases": sum(1 for c in cases if c.get("history"))}
     for c, r, a, s in zip(cases, res, ans, sp):
+        if "skip" in r:
+            stats["skipped"] = stats.get("skipped", 0) + 1; continue
         if "exc" in r:
             ck.fail(None, "membership query raised %s" % r["exc"], dict(c, result=r)); continue
         f = dict(kv.split("=", 1) for kv in a.split(" "))
